@@ -232,8 +232,8 @@ def _judge_training(rng, tag):
     R3 = Node(forward=fwd, initializer=init, name=pre + "_R3"); o3 = RLS(name=pre + "_o3")
     m3 = A >> R3 >> o3; R3 <<= A
     prevA = np.zeros(1)
-    for rep in range(2):
-        seen.clear(); m3.train(X, Y, force_teachers=False)
+    for rep in range(3):
+        seen.clear(); m3.train(X, Y, force_teachers=False, learn_every=(1, 3, 2)[rep])
         for t in range(T):
             e = prevA if t == 0 else 2 * X[t - 1] + 1
             if not np.allclose(seen[-T + t], e, atol=1e-9):
